@@ -308,6 +308,34 @@ def run(tier, pid):
     return rep.finish()
 
 
+def expect_that_check(rep, tier):
+    """For C07: programs in which expectThat mismatches (possibly followed by a skip / expected failure / failure in a
+    later stage or cleanup) - the test must fail once finished and the mismatch details must all arrive.
+    Decided by RunTestTrace.tla like the lifecycle properties; returns the number of programs."""
+    from . import synth
+
+    progs = [p for p in export_programs(rep, "rt_exp_expect.cfg")
+             if any(st["op"] == "expect" for sc in p["script"].values() for st in sc)]
+    traces = [observe(p, ("ext", "tt")) for p in progs]
+    verdicts = validate(rep, traces)
+    for i, tr in enumerate(traces):
+        v = verdicts.get(i + 1)
+        if v is None:
+            raise tlc.MachineryError("expectThat program not completed by the trace spec: %s" % jdump(tr["prog"]))
+        rep.case(nontrivial_key="expect:" + prog_key(tr["prog"]))
+        rep.traces += 1
+        for clause in ("c03_sound", "c03_verdict", "c05_details"):
+            if not v[clause]:
+                rep.violation(
+                    "expectThat:" + clause,
+                    "expectThat:" + classify(tr, v, clause),
+                    {"prog": tr["prog"]},
+                    expected={"allowed": v["allowed"]},
+                    observed=tr["obs"]["flav"][0],
+                )
+    return len(traces)
+
+
 def replay_file(path, pid):
     use_repo()
     from . import synth
